@@ -26,6 +26,7 @@ inductive Rule where
   | dirDupArg | dirArgNotInput
   | noFields | dupField | fieldNotOutput | dupArg | argNotInput
   | resMissingParam | resPosOnly | resNeedsDefault | resPositional | resExtraRequired | resCollides | resNotCallable
+  | argDefault | dirArgDefault | inputFieldDefault | enumValueNone
   | notInterface | dupInterface | ifaceFieldMissing | ifaceFieldType | ifaceArgMissing | ifaceArgType
   | extraRequiredArg
   | unionEmpty | unionMemberNotObject | unionDup
@@ -42,6 +43,8 @@ def Rule.id : Rule → String
   | .dupArg => "dupArg" | .argNotInput => "argNotInput"
   | .resMissingParam => "resMissingParam" | .resPosOnly => "resPosOnly" | .resNeedsDefault => "resNeedsDefault"
   | .resPositional => "resPositional" | .resExtraRequired => "resExtraRequired" | .resCollides => "resCollides" | .resNotCallable => "resNotCallable"
+  | .argDefault => "argDefault" | .dirArgDefault => "dirArgDefault" | .inputFieldDefault => "inputFieldDefault"
+  | .enumValueNone => "enumValueNone"
   | .notInterface => "notInterface" | .dupInterface => "dupInterface"
   | .ifaceFieldMissing => "ifaceFieldMissing" | .ifaceFieldType => "ifaceFieldType"
   | .ifaceArgMissing => "ifaceArgMissing" | .ifaceArgType => "ifaceArgType"
@@ -52,7 +55,7 @@ def Rule.id : Rule → String
 def Rule.all : List Rule :=
   [.invalidName, .invalidTypeName, .noQuery, .queryNotObject, .mutationNotObject, .subscriptionNotObject,
    .dirDupArg, .dirArgNotInput, .noFields, .dupField, .fieldNotOutput, .dupArg, .argNotInput,
-   .resMissingParam, .resPosOnly, .resNeedsDefault, .resPositional, .resExtraRequired, .resCollides, .resNotCallable,
+   .resMissingParam, .resPosOnly, .resNeedsDefault, .resPositional, .resExtraRequired, .resCollides, .resNotCallable, .argDefault, .dirArgDefault, .inputFieldDefault, .enumValueNone,
    .notInterface, .dupInterface, .ifaceFieldMissing, .ifaceFieldType, .ifaceArgMissing, .ifaceArgType,
    .extraRequiredArg, .unionEmpty, .unionMemberNotObject, .unionDup, .enumEmpty, .inputFieldNotInput]
 
@@ -162,17 +165,21 @@ structure Config where
   ifaceResolverChecked : Bool
   /-- a non-callable object in a resolver slot is reported (before: accepted as "cannot be inspected") -/
   notCallableReported : Bool
+  /-- declared default values are checked against the type of their position (fix C07-D1) -/
+  defaultsChecked : Bool
+  /-- an enum member whose internal value is `None` is reported (fix C13-HHH4) -/
+  enumNoneReported : Bool
   deriving DecidableEq, Repr
 
 /-- the tree with the proposed fixes C13-H7, C13-H1-H2-H3-H9, C13-H4-H5-H6, C13-H8 -/
-def Config.fixed : Config := ⟨false, false, false, true, true, true, false, true⟩
+def Config.fixed : Config := ⟨false, false, false, true, true, true, false, true, true, true⟩
 /-- the tree before them -/
-def Config.legacy : Config := ⟨true, true, true, false, false, false, true, false⟩
+def Config.legacy : Config := ⟨true, true, true, false, false, false, true, false, false, false⟩
 
 /-- what the source says today -/
 def currentConfig : Config :=
   ⟨cfgMaskTypeName, cfgMaskDuplicate, cfgMaskImplType, cfgPreciseResolver, cfgExtraArgRequired, cfgSubscriptionChecked,
-   cfgIfaceResolverChecked, cfgNotCallableReported⟩
+   cfgIfaceResolverChecked, cfgNotCallableReported, cfgDefaultsChecked, cfgEnumNoneReported⟩
 
 /-! ### `SchemaValidator` methods -/
 
@@ -187,22 +194,69 @@ def validateRootTypes (s : SchemaD) : List Err :=
   rootErr s .mutationNotObject s.mutation ++
   rootErr s .subscriptionNotObject s.subscription
 
-def notInputErr (s : SchemaD) (rule : Rule) (owner : String) (a : ArgD) : List Err :=
-  if isInputType s a.type then [] else [⟨rule, [a.name, owner, a.type.render]⟩]
+/-! #### `_default_value_error`: a declared default (the Python value handed to resolvers, as canonical JSON)
+    against the type of its position. Checked: no null under non-null (any depth), a list under a list type, a 32-bit
+    integer (not a bool) under `Int`, one of the enum's own internal values under an enum, a mapping under an input
+    object — only the values found under a field's python name. Other scalars are left alone. -/
+
+/-- `value is None` -/
+def isNone : J → Bool
+  | .null => true
+  | _ => false
+
+def lookupKey (kvs : List (String × J)) (k : String) : Option J := (kvs.find? (·.1 == k)).map (·.2)
+
+/-- `true` = `_default_value_error` returns a reason. Recursion on the VALUE (and the type wrappers): fuel. -/
+def defaultBad (s : SchemaD) : Nat → Ty → J → Bool
+  | 0, _, _ => false
+  | n+1, .nonNull t, v => if isNone v then true else defaultBad s n t v
+  | _+1, _, .null => false
+  | n+1, .list t, v =>
+    match v with
+    | .arr xs => xs.any (defaultBad s n t)
+    | _ => true
+  | n+1, .named nm, v =>
+    match s.findType nm with
+    | none => false
+    | some td =>
+      if td.kind == .scalar then
+        (td.builtin && nm == "Int") &&
+          (match v with
+           | .num i => !(decide (-2147483648 ≤ i) && decide (i ≤ 2147483647))
+           | _ => true)
+      else if td.kind == .enum then !(td.values.any (·.value == v))
+      else if td.kind == .input then
+        match v with
+        | .obj kvs => td.inputFields.any fun f =>
+            match lookupKey kvs f.pythonName with
+            | some x => defaultBad s n f.type x
+            | none => false
+        | _ => true
+      else false
+
+/-- nesting depth covered by the model (values generated and found in practice are far below) -/
+def defaultFuel : Nat := 64
+
+def defaultErr (c : Config) (s : SchemaD) (rule : Rule) (owner : String) (a : ArgD) : List Err :=
+  if c.defaultsChecked && a.hasDefault && defaultBad s defaultFuel a.type a.default then [⟨rule, [a.name, owner]⟩] else []
+
+/-- `if not is_input_type(..): error  elif has_default_value: default check` -/
+def notInputErr (c : Config) (s : SchemaD) (rule defRule : Rule) (owner : String) (a : ArgD) : List Err :=
+  if isInputType s a.type then defaultErr c s defRule owner a else [⟨rule, [a.name, owner, a.type.render]⟩]
 
 /-- the argument loop shared (textually duplicated in the source) by `validate_directives` and
     `validate_fields` -/
-def validateArgumentsWith (c : Config) (s : SchemaD) (dupRule notInputRule : Rule) (owner : String) (args : List ArgD) : List Err :=
+def validateArgumentsWith (c : Config) (s : SchemaD) (dupRule notInputRule defRule : Rule) (owner : String) (args : List ArgD) : List Err :=
   forSeen (·.name) (fun a dup =>
     (checkValidName a.name ++
       (if dup then [⟨dupRule, [a.name, owner]⟩] else []) ++
-      (if dup && c.maskDuplicate then [] else notInputErr s notInputRule owner a), true))
+      (if dup && c.maskDuplicate then [] else notInputErr c s notInputRule defRule owner a), true))
     args []
 
 /-- `validate_directives` -/
 def validateDirectivesWith (c : Config) (s : SchemaD) : List Err :=
   s.directives.flatMap fun d =>
-    checkValidName d.name ++ validateArgumentsWith c s .dirDupArg .dirArgNotInput d.name d.args
+    checkValidName d.name ++ validateArgumentsWith c s .dirDupArg .dirArgNotInput .dirArgDefault d.name d.args
 
 /-- `arg.required` -/
 def argRequired (a : ArgD) : Bool := a.type.isNonNull && !a.hasDefault
@@ -292,7 +346,7 @@ def resolversOfField (c : Config) (s : SchemaD) (rv : Bool) (t : TypeD) (f : Fie
 
 def fieldBodyWith (c : Config) (s : SchemaD) (rv : Bool) (t : TypeD) (f : FieldD) : List Err :=
   (if isOutputType s f.type then [] else [⟨.fieldNotOutput, [f.name, t.name, f.type.render]⟩]) ++
-  validateArgumentsWith c s .dupArg .argNotInput (t.name ++ "." ++ f.name) f.args ++
+  validateArgumentsWith c s .dupArg .argNotInput .argDefault (t.name ++ "." ++ f.name) f.args ++
   (if t.kind == .object || c.ifaceResolverChecked then resolversOfField c s rv t f else [])
 
 /-- `validate_fields` -/
@@ -359,16 +413,17 @@ def validateUnionMembers (s : SchemaD) (t : TypeD) : List Err :=
   forSeen id (memberStep s t) t.members []
 
 /-- `validate_enum_values` -/
-def validateEnumValues (t : TypeD) : List Err :=
+def validateEnumValuesWith (c : Config) (t : TypeD) : List Err :=
   (if t.values.isEmpty then [⟨.enumEmpty, [t.name]⟩] else []) ++
-  t.values.flatMap fun v => checkValidName v.name
+  t.values.flatMap fun v => checkValidName v.name ++
+    (if c.enumNoneReported && isNone v.value then [⟨.enumValueNone, [t.name, v.name]⟩] else [])
 
 /-- `validate_input_fields` -/
 def validateInputFieldsWith (c : Config) (s : SchemaD) (t : TypeD) : List Err :=
   (if t.inputFields.isEmpty then [⟨.noFields, [t.name]⟩] else []) ++
   forSeen (·.name) (fun f dup =>
     (checkValidName f.name ++ (if dup then [⟨.dupField, [f.name, t.name]⟩] else []) ++
-      (if dup && c.maskDuplicate then [] else notInputErr s .inputFieldNotInput t.name f), true))
+      (if dup && c.maskDuplicate then [] else notInputErr c s .inputFieldNotInput .inputFieldDefault t.name f), true))
     t.inputFields []
 
 def typeNameErr (t : TypeD) : List Err :=
@@ -379,7 +434,7 @@ def typeBodyWith (c : Config) (s : SchemaD) (rv : Bool) (t : TypeD) : List Err :
   | .object => validateFieldsWith c s rv t ++ validateInterfacesWith c s t
   | .interface => validateFieldsWith c s rv t
   | .union => validateUnionMembers s t
-  | .enum => validateEnumValues t
+  | .enum => validateEnumValuesWith c t
   | .input => validateInputFieldsWith c s t
   | .scalar => []
 
@@ -406,6 +461,7 @@ abbrev validateImplementation := validateImplementationWith Config.fixed
 abbrev interfaceStep := interfaceStepWith Config.fixed
 abbrev validateInterfaces := validateInterfacesWith Config.fixed
 abbrev validateInputFields := validateInputFieldsWith Config.fixed
+abbrev validateEnumValues := validateEnumValuesWith Config.fixed
 abbrev validateType := validateTypeWith Config.fixed
 abbrev validateFixed := validateWith Config.fixed
 
